@@ -201,18 +201,21 @@ register_descriptor! {
 
 macro_rules! div_assign_2d_vector_all {
   ($source:expr, $ix:expr, $sink:expr) => {
-    for val in ($sink).iter_mut() {
-      *val /= (*$source);
-    }
-  };}
+      // only the addressed rows are divided (as in the +=, -= and *= kernels)
+      for cix in 0..($sink).ncols() {
+        for rix in $ix.iter() {
+          ($sink).column_mut(cix)[rix - 1] /= ($source).clone();
+        }
+      }
+    };}
 
 macro_rules! div_assign_2d_vector_all_b {
   ($source:expr, $ix:expr, $sink:expr) => {
-    let ncols = ($sink).ncols();
-    for (i, val) in ($sink).iter_mut().enumerate() {
-      let row = i / ncols;
-      if $ix[row] {
-        *val /= *($source);
+    for cix in 0..($sink).ncols() {
+      for rix in 0..$ix.len() {
+        if $ix[rix] == true {
+          ($sink).column_mut(cix)[rix] /= ($source).clone();
+        }
       }
     }
   };}
